@@ -87,6 +87,8 @@ func MakeInterface(ctx *IContext, funcTabIndex int, itabFunc uintptr, typ reflec
 		funcTabData[i] = notImplements
 	}
 	funcTabData[funcTabIndex] = itabFunc
+	// 重新构造 iface 意味着代理(再次)生效, 之后的 Cancel 需要再次还原变量
+	ctx.p.canceled = false
 
 	// 伪造 iface
 	structType := reflect.TypeOf(&IContext{})
@@ -102,7 +104,8 @@ func MakeInterface(ctx *IContext, funcTabIndex int, itabFunc uintptr, typ reflec
 
 // BackUpTo 备份缓存 iface 指针到 IContext 中
 func BackUpTo(ctx *IContext, iface unsafe.Pointer) {
-	if ctx.p.originIfaceValue == nil {
+	// 首次 mock, 或者取消之后通过同一个 Mocker 再次 mock: 记录变量当前的值
+	if ctx.p.originIfaceValue == nil || ctx.p.canceled {
 		ctx.p.originIface = (*hack.Iface)(iface)
 		originIfaceValue := *(*hack.Iface)(iface)
 		ctx.p.originIfaceValue = &originIfaceValue
